@@ -228,6 +228,12 @@ class Driver:
             if last[1] not in m.datasets:
                 self.readers[last[1]] = []
             return "ok"
+        if act == "AtExit":
+            m.atexit()
+            for k in self.sizes:
+                if k not in m.datasets:
+                    self.readers[k] = []
+            return None
         if act == "GoStale":
             Clock.t += STALE_NS
             return None
